@@ -6,7 +6,7 @@ from vf import core, scenario
 FAST_SHIPPED = [n for n in scenario.SHIPPED if n not in scenario.SLOW]
 
 
-DEFAULT_FAMILIES = ["soft", "soft_cells", "molecules", "hard", "soft_cells_far", "hard_cells", "molecules", "soft"]
+DEFAULT_FAMILIES = ["soft", "soft_cells", "molecules", "hard", "soft_cells_far", "hard_cells", "molecules", "soft_dense"]
 
 
 def lattice_positions(rng, dim, lengths, n, radius):
@@ -28,6 +28,17 @@ def lattice_positions(rng, dim, lengths, n, radius):
 def gen_spec(rng, family=None):
     """A legal generated scenario (legal = within what the classes document as supported)."""
     family = family or rng.choice(["soft", "soft", "soft_cells", "soft_cells_far", "hard", "hard_cells"])
+    if family == "soft_dense":
+        # uniformly random start with a steep repulsion: close pairs at energies of 1e15..1e25 kT, where the sampled
+        # potential change is below the floating-point resolution of the current potential (regression scenario for the
+        # rounding-negative displacement that used to trip the scheduler's monotonicity guard)
+        spec = gen_spec(rng, rng.choice(["soft", "soft_cells"]))
+        p = spec["params"]
+        p.pop("positions", None)
+        p["potential"], p["power"], p["prefactor"], p["n"] = "inverse_power", 12, 0.1, rng.randint(8, 14)
+        p["initial_active"] = rng.randrange(p["n"])
+        spec["family"] = "soft_dense"
+        return spec
     dim = rng.choice([2, 3]) if family in ("soft", "soft_cells") else (3 if family in ("soft_cells_far", "soft_cells_veto") else 2)
     if rng.random() < 0.5 or family in ("soft_cells_far", "soft_cells_veto"):
         L = rng.choice([1.0, 1.0, 2.5, 0.8])
@@ -134,6 +145,17 @@ def jobs_for(ctx, props, n_generated, shipped_events, slow_events, gen_events, f
                 spec["overrides"] = ov
             jobs.append({"spec": spec, "props": list(props), "seed": ctx.seed * 1000 + 900 + k, "max_events": shipped_events,
                          "label": name + "(counter preset)"})
+        # directed regression scenarios: dense uniformly random starts of 14 spheres with an r^-12 repulsion, in which the
+        # unclamped closed-form inversion returned a rounding-negative displacement within the first events
+        for k, (sd, p) in enumerate([
+                (0, {"dim": 2, "lengths": [0.9, 0.9], "beta": 2.0, "scheduler": "list_scheduler", "sampling_interval": 0.9137,
+                     "chain_time": 1.9319, "end": 13.7, "initial_direction": 1, "speed": 0.5, "n": 14,
+                     "potential": "inverse_power", "power": 12, "prefactor": 0.1, "initial_active": 12}),
+                (5, {"dim": 3, "lengths": [1.3, 0.9, 1.0], "beta": 1.0, "scheduler": "list_scheduler", "sampling_interval": 0.37,
+                     "chain_time": 0.3137, "end": 13.7, "initial_direction": 2, "speed": 1.0, "n": 14,
+                     "potential": "inverse_power", "power": 12, "prefactor": 0.1, "initial_active": 8})]):
+            jobs.append({"spec": {"kind": "spheres", "family": "soft_dense", "params": p}, "props": list(props), "seed": sd,
+                         "max_events": gen_events or 1500, "label": f"gen-soft_dense-directed-{k}"})
     rng = core.rng_for(ctx.prop, ctx.seed, "gen")
     families = families or DEFAULT_FAMILIES
     for i in range(n_generated):
